@@ -133,7 +133,22 @@ def case_control(dummy):
     return CaseResult(states=1, transitions=1, traces=1, outcome="control")
 
 
-CASES = {"step": case_step, "control": case_control}
+def case_sequence(cases):
+    """Construction history: many simulator configurations built and stepped one after the other in
+    ONE process; every step is still compared with the reference (module-level state must not leak)."""
+    fails = []
+    states = 0
+    for k, c in enumerate(cases):
+        res = case_step(**c)
+        states += res["states"]
+        for fl in res["fails"]:
+            fl["key"] = fl["key"] + ":in-sequence"
+            fl["detail"]["position_in_sequence"] = k
+            fails.append(fl)
+    return CaseResult(fails=fails, states=states, transitions=states, traces=states, outcome=f"sequence:{len(cases)}:{cases[0]['cfg']['kind']}")
+
+
+CASES = {"step": case_step, "control": case_control, "sequence": case_sequence}
 
 
 def lattice_cases(tier, seed):
@@ -179,6 +194,14 @@ def run(r) -> None:
     cases = lattice_cases(r.tier, r.seed)
     cases.sort(key=lambda c: c["cfg"]["kind"] not in ("ns3d", "pt3dv"))
     r.run_cases("step-lattice", "step", cases, chunksize=2)
+    # explicit construction histories: the deviation <= 1 configurations of each simulator class in one
+    # process, forwards and backwards
+    seqs = []
+    dev1 = lattice_cases("dev1", r.seed)
+    for kind in ("ns2d", "ns3d", "pt3dv"):
+        lst = [c for c in dev1 if c["cfg"]["kind"] == kind]
+        seqs += [dict(cases=lst), dict(cases=list(reversed(lst)))]
+    r.run_cases("configuration-sequences", "sequence", seqs)
     if r.tier == "thorough":
         # end-to-end replay of the deviation <= 1 traces on the REAL generated code (pystencils -> g++)
         jit_cases = [dict(c, backend="jit") for c in lattice_cases_dev1(r.seed)]
